@@ -212,10 +212,22 @@ def rule_loops(report, prog):
         if d is None:
             continue
         for lp in walk_no_nested(d.node):
-            if isinstance(lp, ast.While) and 'size' in norm(lp.test):
+            if isinstance(lp, ast.While):
                 n += 1
                 upd = [b for s_, b in find(lp, 'offset, size = ($A, $B)')]
                 okk = False
+                t = lp.test
+                if not upd and isinstance(t, ast.Compare) and len(t.ops) == 1 and isinstance(t.ops[0], ast.Lt) and isinstance(t.left, ast.Name) \
+                        and isinstance(t.comparators[0], ast.Name):
+                    # cursor form `while cur < end`: the cursor is advanced by a positive constant on every cycle, only ever advanced, and
+                    # the end is not moved
+                    cur, end_ = t.left.id, t.comparators[0].id
+                    stores = [x for x in ast.walk(lp) if isinstance(x, ast.Name) and isinstance(x.ctx, (ast.Store, ast.Del)) and x.id in (cur, end_)]
+                    augs = [x for x in ast.walk(lp) if isinstance(x, ast.AugAssign) and isinstance(x.target, ast.Name) and x.target.id == cur
+                            and isinstance(x.op, ast.Add)]
+                    step = [x for x in lp.body if isinstance(x, ast.AugAssign) and x in augs and isinstance(try_const(x.value), int) and try_const(x.value) >= 1]
+                    okk = bool(step) and len(stores) == len(augs) and not any(isinstance(x, ast.Continue) for x in ast.walk(lp)) and \
+                        all(isinstance(try_const(x.value), int) and try_const(x.value) >= 0 or isinstance(x.value, ast.Name) for x in augs)
                 if len(upd) == 1:
                     lb = linear(upd[0]['B'])
                     # size - 2 - L  /  size - 2 - pdu_size : strictly smaller by at least 2 (L, pdu_size are unsigned fields)
@@ -435,6 +447,7 @@ def run(report, prog, tier):
     rule_client_waits(report, prog)
     from .c04 import rule_deadlines
     rule_deadlines(report, prog, rule='C07-R3')
+    c11.agf_retract(report, prog)
     report.trusted += ['interface summaries of ContactlessFrontend.exchange / sense / listen (C13)',
                        'ndeflib raises ndef.DecodeError / ndef.EncodeError', 'user callbacks (on-connect, read_func, process_*_request overrides) are opaque']
     report.assumptions += ['implicit exceptions are modelled for the catalogue of the buffer rules only (index, pop, fixed-arity unpack, struct size, '
